@@ -51,7 +51,7 @@ func corpusCases(s *hlib.Suite) {
 			"(" + cInt(1) + ", " + cInt(1) + ", " + cInt(0) + ")", "(" + cInt(2) + ", " + cInt(2) + ", " + cInt(0) + ")",
 			"(" + cInt(3) + ", " + cInt(3) + ", " + cInt(0) + ")", "(" + cInt(0) + ", " + cInt(0) + ", " + cInt(0) + ")"}) + "))]"
 		desc := map[string]interface{}{"op": "eval", "corpus": "K3", "dst": "B", "expr": "-(-(col(A), col(A)), col(colcol-temp-0))",
-			"props": []string{"C07"}, "class": "eval-missing-column-named-like-a-temporary"}
+			"props": []string{"C07", "C10"}, "class": "eval-missing-column-named-like-a-temporary"}
 		e := qframe.Expr("-", qframe.Expr("-", types.ColumnName("A"), types.ColumnName("A")), types.ColumnName("colcol-temp-0"))
 		od, ok := runOp(s, base, desc, func() qframe.QFrame { return base.Eval("B", e) })
 		if ok {
